@@ -4,7 +4,8 @@ ID = "C18"
 LEVEL = "other"
 TAGS = ("C18",)
 CONTRACT_MODULES = ALL_CONTRACTS
-FUNCTIONS = ["GcodeParser.GcodeParser.parse", "GcodeParser.GcodeParser.computeChecksum", "GcodeParser.GcodeParser.validate"]
+FUNCTIONS = ["GcodeParser.GcodeParser.parse", "GcodeParser.GcodeParser.computeChecksum", "GcodeParser.GcodeParser.validate",
+             "GcodeParser.GcodeParser._updateParameters", "GcodeParser.GcodeParser.lineNumber.setter"]
 ASSUMPTIONS = ["A2", "A4"]
 
 
@@ -33,7 +34,9 @@ EXPLANATION = ("Deductive part: (b) GcodeParser.parse, executed symbolically fro
                "starting from 0 and lies in 0..255, for texts of any length (loop invariant over the symbolic byte sequence; the bytes "
                "and int ^ are assumed builtin contracts), and validate() raises ValueError exactly when one of line number / checksum "
                "is missing or the checksum differs from computeChecksum(leading blanks + text) and otherwise returns None changing "
-               "nothing (against computeChecksum's contract, not its body). Bounded part (labelled bounded, not "
+               "nothing (against computeChecksum's contract, not its body); (c, cache half) the two writers of parsed fields outside parse() drop the "
+               "cached renderings: _updateParameters stores the text and clears the cached dictionary and command string, the lineNumber setter stores "
+               "None / int(value) and clears the cached command string when the number changed; both write nothing else. Bounded part (labelled bounded, not "
                "counted under obligations): losslessness of fullText, stability of commandString under re-parsing and checksum "
                "validation are checked exhaustively on all strings up to a length bound over one representative per character class "
                "of the pattern plus all sequences of up to three template lines -- they depend on which derivation the backtracking "
@@ -42,7 +45,12 @@ TECHNIQUE = "contracts on parse() (over the structural contract of the real patt
 EXTRA_ASSUMPTIONS = ["the digit class is ASCII 0-9 in the regex translation and in the bounded alphabets",
                      "that the RENDERED line (stringify with line number and checksum) parses back to fields validate() accepts is the bounded "
                      "round trip; the deductive part covers what the checksum is and when validate() raises"]
-BREAKERS = [{'desc': 'checksum starts from 1',
+BREAKERS = [{'desc': '_updateParameters keeps the cached parameter dictionary',
+  'functions': ['GcodeParser.GcodeParser._updateParameters'],
+  'module': 'GcodeParser',
+  'new': '        self._parameters = value\n',
+  'old': '        self._parameters = value\n        self._parameterDict = None\n'},
+ {'desc': 'checksum starts from 1',
   'functions': ['GcodeParser.GcodeParser.computeChecksum'],
   'module': 'GcodeParser',
   'new': '        checksum = 1\n        for byte',
